@@ -17,6 +17,10 @@ def expr(rng, depth):
         return "%s + %s" % (l, rr)
     if r < 0.66:
         return "(%s)" % expr(rng, depth - 1)
+    if r < 0.72:
+        # a compound assignment to a variable or to a property (an expression: it stands in parentheses)
+        target = rng.choice(["a", "b", "c.p", "d.q", "g(a).p", "(a + b).p", "'lit'.p"]) if rng.random() < 0.85 else "%s.p" % operand(rng, depth - 1, "r")
+        return "(%s += %s)" % (target, expr(rng, depth - 1))
     if r < 0.86:
         # a method call with one argument; a sum as receiver needs parentheses
         recv = expr(rng, depth - 1)
